@@ -248,6 +248,96 @@ def oracle_patched(ctx):
                     'cat == MESSAGE text of the entries that store one, with and without -a at the first entry'}
 
 
+def step_back(data, k, delta):
+    """the journal `data` with the wall clock set back part-way: every entry from position k on (sequence-number order) gets
+    __REALTIME_TIMESTAMP - delta; only the `realtime` word of the entry objects is rewritten. None if the layout is unexpected."""
+    import struct
+    b = bytearray(data)
+    if b[:8] != b'LPKSHHRH':
+        return None
+    header_size, = struct.unpack_from('<Q', b, 88)
+    tail, = struct.unpack_from('<Q', b, 136)
+    off, entries = header_size, []
+    while off <= tail and off + 16 <= len(b):
+        size, = struct.unpack_from('<Q', b, off + 8)
+        if size < 16:
+            return None
+        if b[off] == 3:
+            entries.append(off)
+        off = (off + size + 7) & ~7
+    seq = [struct.unpack_from('<Q', b, o + 16)[0] for o in entries]
+    if seq != sorted(seq) or not 0 < k < len(entries):
+        return None
+    for o in entries[k:]:
+        rt, = struct.unpack_from('<Q', b, o + 24)
+        struct.pack_into('<Q', b, o + 24, rt - delta)
+    return bytes(b)
+
+
+def oracle_clock_step_back(ctx):
+    """Journals whose receive times go BACKWARDS between entries (the wall clock was stepped back while journald was writing):
+    the property's order is the order the journal enumerates its entries (what `journalctl --file` prints), not receive-time
+    order. Shipped samples are all non-decreasing, so the realtime word of the later entries is rewritten in place."""
+    rng = e2e.Rng(ctx.seed * 113 + 9)
+    failures, ev, nvar = [], 0, 0
+    for si, (rel, kind) in enumerate(SOURCES[:2] if not ctx.thorough else SOURCES):
+        src = os.path.join(core.REPO, rel)
+        if not os.path.exists(src):
+            continue
+        data = gzip.open(src, 'rb').read() if kind == 'gz' else open(src, 'rb').read()
+        if not data or len(data) > 12_000_000:
+            continue
+        n0 = len(journalctl_tmp(ctx, data))
+        if n0 < 2:
+            continue
+        for v in range(ctx.q(2, 6)):
+            k = 1 + rng.below(n0 - 1)
+            pd = step_back(data, k, rng.pick([3_000_000, 60_000_000, 3_600_000_000]))
+            if pd is None:
+                continue
+            path = os.path.join(ctx.work, 'stepback_%d_%d.journal' % (si, v))
+            open(path, 'wb').write(pd)
+            ref = journalctl(path)
+            times = [int(r['__REALTIME_TIMESTAMP']) for r in ref]
+            if len(ref) != n0 or times == sorted(times):
+                os.unlink(path)
+                continue
+            nvar += 1
+            desc = {'journal': rel, 'entries': len(ref), 'clock_set_back_from_entry': k}
+            for pk in ('plain', 'gz') if v == 0 else ('plain',):
+                p2 = path
+                if pk != 'plain':
+                    p2 = path + e2e.SUFFIX[pk]
+                    e2e.pack(pd, pk, p2, inner_name=os.path.basename(path))
+                rc, out, err, _ = e2e.s4(e2e.BASE_ARGS + ['--journal-output', 'export', p2], timeout=600)
+                ev += 1
+                got = [ln[len(b'__CURSOR='):].decode() for ln in out.split(b'\n') if ln.startswith(b'__CURSOR=')]
+                exp = [r.get('__CURSOR') for r in ref]
+                if got != exp:
+                    what = 'journal:not-in-journal-order' if sorted(got) == sorted(exp) else 'journal:entry-count'
+                    failures.append({'signature': what, 'case': {**desc, 'container': pk},
+                                     'detail': f'export lists {len(got)} entries, journalctl {len(exp)}; first difference at position {next((i for i, (a, b) in enumerate(zip(got, exp)) if a != b), min(len(got), len(exp)))}'})
+                rc, out, err, _ = e2e.s4(e2e.BASE_ARGS + ['--journal-output', 'cat', p2], timeout=600)
+                ev += 1
+                if out != expected_cat(ref):
+                    failures.append({'signature': 'journal:cat-text-differs', 'case': {**desc, 'container': pk}, 'detail': f'cat text differs from journalctl order ({len(out)} B)'})
+                if p2 != path:
+                    os.unlink(p2)
+            os.unlink(path)
+    return {'evaluations': ev, 'distinct_nontrivial': max(nvar, 1), 'failures': failures, 'samples': [],
+            'rule': 'shipped journals with the realtime word of the entries from a random position on lowered (clock set back 3 s / 1 min / 1 h): export cursors and cat text must follow '
+                    'journalctl --file order (journal order), plain and gz'}
+
+
+def journalctl_tmp(ctx, data):
+    p = os.path.join(ctx.work, 'jtmp_count.journal')
+    open(p, 'wb').write(data)
+    try:
+        return journalctl(p)
+    finally:
+        os.unlink(p)
+
+
 def oracle_many_fields(ctx):
     """A journal written by the real systemd-journald with entries of ~200 and of 319 fields (corpus/jrender/synth.journal.xz; journald
     stores up to 1024 fields per entry): every stored field must appear in the export rendering, and the short rendering must show the
@@ -305,7 +395,7 @@ def check(ctx):
     orc, corr = (None, [])
     if ok_impl:
         orc, corr = oracle_and_corr(ctx)
-        orc = core.merge_oracles([orc, oracle_patched(ctx), oracle_many_fields(ctx)])
+        orc = core.merge_oracles([orc, oracle_patched(ctx), oracle_many_fields(ctx), oracle_clock_step_back(ctx)])
         # every rendering of every entry: the real JournalReader vs Model.JournalRender (values from journalctl -o export, order from the real enumeration)
         os.environ.setdefault('S4_REPO', core.REPO)
         corr.append(core.correspond(ctx, 'jrender', ctx.q(2000, 60000)))
